@@ -316,7 +316,10 @@ int main (int argc, char *argv[]) {
                      * out the split string */
                     matched++;
                     if(matched == split_size) {
-                        if(l > matched)
+                        /* Write out whatever lies between the last split and
+                         * the beginning of this match (nothing if the match
+                         * began in the previous block) */
+                        if(l + 1 > start + matched)
                             write_data(zck, data + start, l - (start + matched - 1));
                         if(zck_end_chunk(zck) < 0)
                             exit(1);
